@@ -340,6 +340,7 @@ class Context(MetadataContextMixin, object):
         self._metadata = Metadata()
         self.cwd_key=None
         self.evaluated_key=None
+        self._evaluation_cache = None  # cache used by the running evaluation (None: the global cache)
 
     def new_empty(self):
         return Context(debug=self.debug_messages)
@@ -582,6 +583,8 @@ class Context(MetadataContextMixin, object):
         return command_registry()
 
     def cache(self):
+        if self._evaluation_cache is not None:
+            return self._evaluation_cache
         return get_cache()
 
     def state_types_registry(self):
@@ -1037,6 +1040,8 @@ class Context(MetadataContextMixin, object):
                 cache = self.cache()
                 self.debug(f"Default cache {repr(cache)}")
 
+        # progress and final metadata of this evaluation go to the same cache as its results
+        self._evaluation_cache = cache
         self.debug(f"Using cache {repr(cache)}")
         self.debug(f"Try cache {query}")
         if (extra_parameters is None or len(extra_parameters)==0) and input_value is None and not input_value_specified:
